@@ -5,7 +5,7 @@ ASSUMPTIONS = [
     "Go's int64/uint64 arithmetic is two's-complement wrap-around as modelled by BitVec 64",
     "math.Float64bits / Float64frombits are the identity on bit patterns",
 ]
-TRUSTED = ["hand-written model Bluge.Numeric tied by the correspondence stream `numeric`"]
+TRUSTED = ["the Go->Lean translator go/extract/trans.go (BitVec 64 semantics of int64/uint64, fuel for loops)", "reference model Bluge.Numeric (only a proof device: every property theorem is bridged to the translated code)"]
 
 
 def signature(rec):
@@ -14,12 +14,19 @@ def signature(rec):
         return "numeric-range-walk-exceeds-cap"
     return None
 
-LEVEL_TEXT = ("Lean 4 theorems over BitVec 64 (all 2^64 values, all intervals) about the model of the numeric coding; "
-              "the model is tied to /repo by the correspondence stream `numeric` (boundary grid, all pairs, seeded random) "
-              "executed on the real functions and on the Lean definitions")
-LEVEL_NOTE = ("trusted: Lean kernel + propext/Classical.choice/Quot.sound; the hand-written model Bluge.Numeric and the "
-              "correspondence harness go/harness/c10; BitVec 64 as the semantics of Go int64/uint64")
-TECHNIQUE = "Lean 4 proof (BitVec 64) + differential correspondence run against the real numeric package"
+LEVEL_TEXT = ("Lean 4 theorems over BitVec 64 (all 2^64 values, all intervals) about the numeric coding: order embedding of "
+              "Float64ToInt64 and of the prefix coding, decode/encode round trips, exactness of splitInt64Range "
+              "(split_exact), totality and exactness of the range walk (rangeMatches_total, enumerate_steps_bounded), Morton "
+              "round trip; the theorems are stated about a reference model AND carried over to the code by bridge theorems "
+              "(gen_*): go/extract/c10.go TRANSLATES 16 Go functions (numeric/*.go, splitInt64Range, the increment functions, "
+              "the end-point handling of NewNumericRangeSearcher) from /repo's working tree into lean/BlugeGen/C10.lean on every "
+              "run and the bridges prove translated code = reference for all inputs; additionally the correspondence stream "
+              "`numeric` (boundary grid, all pairs, seeded random, end-to-end range queries on a real index) runs the real "
+              "functions against the Lean definitions")
+LEVEL_NOTE = ("trusted: Lean kernel + propext/Classical.choice/Quot.sound; the translator go/extract/trans.go + c10.go and the "
+              "correspondence harness go/harness/c10; BitVec 64 as the semantics of Go int64/uint64; modelled, not verified: "
+              "the dictionary walk of the segment plugin (ice) that consumes the enumerated terms")
+TECHNIQUE = "Lean 4 proof (BitVec 64) about code translated from source on every run + differential correspondence run against the real numeric package"
 
 # modules whose theorems are audited and counted as obligations (bridge Gen <-> reference, property theorems)
 _MODS = ["BlugeProofs.C10", "BlugeProofs.C10.Bridge", "BlugeProofs.C10.BridgePC", "BlugeProofs.C10.Prefix", "BlugeProofs.C10.Order",
